@@ -520,7 +520,7 @@ func FuzzVerifFirstPacket(f *testing.F) {
 				t.Fatalf("VERIF-VIOLATION property=C09 sub=fuzz file=- sig=prefix-altered: consumed prefix differs from what the peer sent")
 			}
 			if err == nil {
-				sta := &State{StaticPv: &pv, UsedRandom: map[[32]byte]int64{}, WorldState: commonWorldNow()}
+				sta := vState(&State{StaticPv: &pv, UsedRandom: map[[32]byte]int64{}, WorldState: commonWorldNow()})
 				AuthFirstPacket(buf[:n], tr, sta) // must not panic
 			}
 		} else if err == nil {
